@@ -1,8 +1,11 @@
 package props
 
 import (
+	"crypto/rand"
 	"fmt"
 	"math"
+	"sync"
+	"sync/atomic"
 	"testing"
 
 	"go.1password.io/spg"
@@ -218,9 +221,117 @@ func c09Gen(t *rapid.T) c09Case {
 	return c
 }
 
+// Accounting under concurrency: a source that hands out each 32-bit word
+// exactly once. Whatever the interleaving of goroutines, the multiset of words
+// chosen in all generated passwords must equal the image of the consumed
+// source words under the (learned, not assumed) word-to-choice map: every
+// choice comes from source bytes, and no bytes decide two choices or none.
+type c09Conc struct {
+	Key uint64 `json:"key"`
+	G   int    `json:"goroutines"`
+	L   int    `json:"length"`
+	I   int    `json:"iterations"`
+}
+
+func c09ConcRun(c c09Conc) error {
+	const size = 4096
+	words := make([]string, size)
+	for i := range words {
+		words[i] = fmt.Sprintf("w%05d", i)
+	}
+	wl, err := spg.NewWordList(words)
+	if err != nil {
+		return err
+	}
+	T := c.G * c.L * c.I
+	src := &concReader{key: c.Key}
+	old := rand.Reader
+	oldO := spg.VerifDrawObserver
+	rand.Reader = src
+	spg.VerifDrawObserver = nil
+	defer func() { rand.Reader = old; spg.VerifDrawObserver = oldO }()
+	// phase 1 (sequential): learn which word each source value selects
+	one := spg.NewWLRecipe(1, wl)
+	want := map[string]int{}
+	for k := 0; k < T; k++ {
+		before := atomic.LoadUint64(&src.ctr)
+		p, err := one.Generate()
+		if err != nil {
+			return err
+		}
+		if atomic.LoadUint64(&src.ctr) != before+1 {
+			return &ev.Skip{Why: "a one-word generation does not consume exactly one source read"}
+		}
+		want[p.String()]++
+	}
+	// phase 2 (concurrent): the same T source values, consumed by G goroutines
+	atomic.StoreUint64(&src.ctr, 0)
+	r := spg.NewWLRecipe(c.L, wl)
+	r.SeparatorChar = " "
+	var mu sync.Mutex
+	got := map[string]int{}
+	var firstErr error
+	var wg sync.WaitGroup
+	for g := 0; g < c.G; g++ {
+		wg.Add(1)
+		go func() {
+			defer wg.Done()
+			defer func() {
+				if rec := recover(); rec != nil {
+					mu.Lock()
+					firstErr = fmt.Errorf("panic under concurrency: %v", rec)
+					mu.Unlock()
+				}
+			}()
+			local := map[string]int{}
+			for i := 0; i < c.I; i++ {
+				p, err := r.Generate()
+				if err != nil {
+					mu.Lock()
+					firstErr = err
+					mu.Unlock()
+					return
+				}
+				for _, a := range p.Tokens().Atoms() {
+					local[a]++
+				}
+			}
+			mu.Lock()
+			for k, v := range local {
+				got[k] += v
+			}
+			mu.Unlock()
+		}()
+	}
+	wg.Wait()
+	if firstErr != nil {
+		return firstErr
+	}
+	if n := atomic.LoadUint64(&src.ctr); n != uint64(T) {
+		return fmt.Errorf("%d goroutines generating %d words consumed %d source reads, want %d", c.G, T, n, T)
+	}
+	for w, n := range want {
+		if got[w] != n {
+			return fmt.Errorf("under concurrency the source values that select %q were consumed %d times but %q was chosen %d times: some source bytes decided two choices or none", w, n, w, got[w])
+		}
+	}
+	for w, n := range got {
+		if want[w] != n {
+			return fmt.Errorf("under concurrency %q was chosen %d times, its source values were consumed %d times", w, n, want[w])
+		}
+	}
+	ev.Leaves(int64(T))
+	ev.Class("concurrent_accounting")
+	ev.NonTrivial(fmt.Sprintf("conc|%d|%d|%d|%d", c.Key, c.G, c.L, c.I))
+	return nil
+}
+
 func TestC09(t *testing.T) {
 	if !requireHooks(t) {
 		return
 	}
 	ev.Check(t, "c09_source", ev.N(2400, 40000), c09Gen, c09Run)
+	ev.Check(t, "c09_concurrent_accounting", ev.N(32, 320), func(t *rapid.T) c09Conc {
+		return c09Conc{Key: rapid.Uint64().Draw(t, "key"), G: rapid.IntRange(2, 12).Draw(t, "g"), L: rapid.IntRange(1, 5).Draw(t, "l"), I: rapid.IntRange(20, 150).Draw(t, "i")}
+	}, c09ConcRun)
 }
